@@ -2,12 +2,28 @@
 // Type.Copy). The reading conventions are stated in the header of main.go (paragraph "Slices of
 // errors, maps with struct keys, sort.Slice, locals of type Type"); main.go calls the hooks
 // wpsType, wpsExpr, wpsEffect, wpsAssigned, wpsDropInner and wpsPrelude, nothing else.
+//
+// Rules added with the repaired `Schema.buildRels` (reading conventions, trusted; they belong to
+// the same paragraph of the header):
+//
+//	a, b := e1, e2   (also `=`; as many right sides as left sides, all left sides variables) is
+//	            `a := e1; b := e2` when no right side contains a call and none mentions a variable
+//	            of the left side: then the simultaneous assignment and the sequence are the same.
+//	range copy  `for _, v := range xs { … v.f = e … }`: the range value variable is a COPY of the
+//	            element and a store into a field of it changes that copy only. The loop is read as
+//	            `var v T; for _, v' := range xs { v = v'; … }` - literally what Go specified before
+//	            1.22 (one variable for the loop) and the same as the per-iteration variable of 1.22
+//	            as long as no closure captures v and its address is not taken, which is checked.
+//	            v is then an ordinary local that the loop carries: `v.f = e` is
+//	            `let v_ := { v_ with f := e }`, a read of v is `v_`; the value v has after the loop
+//	            is not visible in Go and is not used.
 package main
 
 import (
 	"go/ast"
 	"go/token"
 	"go/types"
+	"strings"
 )
 
 func init() {
@@ -231,9 +247,34 @@ func (x *tr) wpsEffect(st ast.Stmt, ind string) (string, bool) {
 		x.kill(xs)
 		return "let " + local(xs.Name) + " := (List.mergeSort " + local(xs.Name) + " (fun " + a + " " + b + " => !" + less + "))", true
 	}
+	// this file's header: range copy
+	if rs, isR := st.(*ast.RangeStmt); isR {
+		if out, ok := x.rangeCopy(rs, ind); ok {
+			return out, true
+		}
+		return "", false
+	}
 	as, isAs := st.(*ast.AssignStmt)
+	if isAs {
+		// this file's header: a, b := e1, e2
+		if out, ok := x.parallelAssign(as, ind); ok {
+			return out, true
+		}
+	}
 	if !isAs || len(as.Lhs) != 1 || len(as.Rhs) != 1 {
 		return "", false
+	}
+	// this file's header: range copy - a store into a field of the copy
+	if sel, isSel := as.Lhs[0].(*ast.SelectorExpr); isSel && as.Tok == token.ASSIGN {
+		if id, isId := sel.X.(*ast.Ident); isId && wpsRangeCopies[info.Uses[id]] {
+			f := fieldOfT(info.Uses[id].Type(), sel.Sel.Name)
+			if f == "" {
+				fail(st, "field %s of %s", sel.Sel.Name, id.Name)
+			}
+			val := x.exprT(as.Rhs[0], info.Types[as.Lhs[0]].Type)
+			x.kill(as.Lhs[0])
+			return "let " + local(id.Name) + " := { " + local(id.Name) + " with " + f + " := " + val + " }", true
+		}
 	}
 	// header: keyed maps - a store into a local map with struct keys
 	if ix, isIx := as.Lhs[0].(*ast.IndexExpr); isIx {
@@ -302,6 +343,164 @@ func (x *tr) wpsEffect(st ast.Stmt, ind string) (string, bool) {
 	return "", false
 }
 
+// the range value variables being read as local copies (this file's header: range copy)
+var wpsRangeCopies = map[types.Object]bool{}
+var wpsRangeCopyStmt = map[*ast.RangeStmt]*ast.RangeStmt{}
+
+// fieldStoreRoot: st is `v.f = e` with v a variable; the variable
+func fieldStoreRoot(st *ast.AssignStmt) (*ast.Ident, types.Object) {
+	if st.Tok != token.ASSIGN {
+		return nil, nil
+	}
+	for _, l := range st.Lhs {
+		if sel, isSel := l.(*ast.SelectorExpr); isSel {
+			if id, isId := sel.X.(*ast.Ident); isId {
+				if v, isVar := info.Uses[id].(*types.Var); isVar && !v.IsField() {
+					return id, v
+				}
+			}
+		}
+	}
+	return nil, nil
+}
+
+// rangeValueOf: the range statement of the function whose value variable obj is
+func (x *tr) rangeValueOf(obj types.Object) *ast.RangeStmt {
+	var found *ast.RangeStmt
+	ast.Inspect(x.fn.Body, func(n ast.Node) bool {
+		if rs, isR := n.(*ast.RangeStmt); isR && rs.Tok == token.DEFINE {
+			if id, isId := rs.Value.(*ast.Ident); isId && info.Defs[id] == obj {
+				found = rs
+			}
+		}
+		return found == nil
+	})
+	return found
+}
+
+// rangeCopy: a range statement whose value variable has a field stored into in the body
+func (x *tr) rangeCopy(rs *ast.RangeStmt, ind string) (string, bool) {
+	val, isId := rs.Value.(*ast.Ident)
+	if !isId || rs.Tok != token.DEFINE || val.Name == "_" || info.Defs[val] == nil {
+		return "", false
+	}
+	obj := info.Defs[val]
+	stored := false
+	ast.Inspect(rs.Body, func(n ast.Node) bool {
+		if as, isAs := n.(*ast.AssignStmt); isAs {
+			if _, o := fieldStoreRoot(as); o == obj {
+				stored = true
+			}
+		}
+		return true
+	})
+	if !stored {
+		return "", false
+	}
+	if _, isP := obj.Type().(*types.Pointer); isP || structOf(obj.Type()) == "" {
+		fail(rs, "store through the range variable %s, which is not a structure value", val.Name)
+	}
+	if x.recvObj != nil {
+		fail(rs, "store into a field of the range variable %s in a receiver-mutating method", val.Name)
+	}
+	ast.Inspect(rs.Body, func(n ast.Node) bool {
+		switch v := n.(type) {
+		case *ast.UnaryExpr:
+			if v.Op == token.AND {
+				ast.Inspect(v.X, func(m ast.Node) bool {
+					if id, ok := m.(*ast.Ident); ok && info.Uses[id] == obj {
+						fail(v, "address of (a part of) the range variable %s, a field of which is stored into", val.Name)
+					}
+					return true
+				})
+			}
+		case *ast.FuncLit:
+			ast.Inspect(v, func(m ast.Node) bool {
+				if id, ok := m.(*ast.Ident); ok && info.Uses[id] == obj {
+					fail(v, "closure over the range variable %s, a field of which is stored into", val.Name)
+				}
+				return true
+			})
+		case *ast.CallExpr:
+			if _, recv, isM := x.mutCall(v); isM {
+				ast.Inspect(recv, func(m ast.Node) bool {
+					if id, ok := m.(*ast.Ident); ok && info.Uses[id] == obj {
+						fail(v, "receiver-mutating call on the range variable %s", val.Name)
+					}
+					return true
+				})
+			}
+		}
+		return true
+	})
+	x.noShadow(val)
+	s2 := wpsRangeCopyStmt[rs]
+	if s2 == nil {
+		hid := types.NewVar(val.Pos(), obj.Pkg(), val.Name+"'", obj.Type())
+		hidDef := &ast.Ident{NamePos: val.Pos(), Name: hid.Name()}
+		info.Defs[hidDef] = hid
+		hidUse := &ast.Ident{NamePos: rs.Body.Lbrace, Name: hid.Name()}
+		info.Uses[hidUse] = hid
+		info.Types[hidUse] = types.TypeAndValue{Type: obj.Type()}
+		lhs := &ast.Ident{NamePos: rs.Body.Lbrace, Name: val.Name}
+		info.Uses[lhs] = obj
+		info.Types[lhs] = types.TypeAndValue{Type: obj.Type()}
+		cp := &ast.AssignStmt{Lhs: []ast.Expr{lhs}, TokPos: rs.Body.Lbrace, Tok: token.ASSIGN, Rhs: []ast.Expr{hidUse}}
+		body := &ast.BlockStmt{Lbrace: rs.Body.Lbrace, List: append([]ast.Stmt{cp}, rs.Body.List...), Rbrace: rs.Body.Rbrace}
+		s2 = &ast.RangeStmt{For: rs.For, Key: rs.Key, Value: hidDef, TokPos: rs.TokPos, Tok: rs.Tok, Range: rs.Range, X: rs.X, Body: body}
+		wpsRangeCopyStmt[rs] = s2
+	}
+	wpsRangeCopies[obj] = true
+	loop := strings.TrimRight(x.rangeStmt(s2, nil, ind, false), " \n")
+	return "let " + local(val.Name) + " := " + zeroOf(obj.Type(), rs) + "\n" + ind + loop, true
+}
+
+// parallelAssign: `a, b := e1, e2` / `a, b = e1, e2` as the sequence of the single assignments
+func (x *tr) parallelAssign(as *ast.AssignStmt, ind string) (string, bool) {
+	if len(as.Lhs) < 2 || len(as.Lhs) != len(as.Rhs) || (as.Tok != token.DEFINE && as.Tok != token.ASSIGN) {
+		return "", false
+	}
+	objs := map[types.Object]bool{}
+	for _, l := range as.Lhs {
+		id, isId := l.(*ast.Ident)
+		if !isId {
+			return "", false
+		}
+		if id.Name != "_" {
+			objs[info.ObjectOf(id)] = true
+		}
+	}
+	for _, r := range as.Rhs {
+		ast.Inspect(r, func(n ast.Node) bool {
+			switch v := n.(type) {
+			case *ast.CallExpr:
+				fail(as, "multiple assignment with a call on the right")
+			case *ast.FuncLit:
+				fail(as, "multiple assignment with a function literal on the right")
+			case *ast.Ident:
+				if o := info.Uses[v]; o != nil && objs[o] {
+					fail(as, "multiple assignment whose right side mentions %s, which it assigns", v.Name)
+				}
+			}
+			return true
+		})
+	}
+	lines := []string{}
+	for i, l := range as.Lhs {
+		id := l.(*ast.Ident)
+		if id.Name == "_" {
+			continue
+		}
+		tok := as.Tok
+		if tok == token.DEFINE && info.Defs[id] == nil {
+			tok = token.ASSIGN // a variable of the left side that exists already is assigned
+		}
+		one := &ast.AssignStmt{Lhs: []ast.Expr{l}, TokPos: as.TokPos, Tok: tok, Rhs: []ast.Expr{as.Rhs[i]}}
+		lines = append(lines, x.assign(one, ind))
+	}
+	return joinLines(ind, lines...), true
+}
+
 // wpsAssigned: the variables assigned by the statements of this file (a store into a local map
 // with struct keys, sort.Slice)
 func (x *tr) wpsAssigned(stmts []ast.Stmt, out map[string]bool) {
@@ -309,6 +508,22 @@ func (x *tr) wpsAssigned(stmts []ast.Stmt, out map[string]bool) {
 		ast.Inspect(s, func(n ast.Node) bool {
 			switch v := n.(type) {
 			case *ast.AssignStmt:
+				// this file's header: range copy. A store into a field of the copy assigns the
+				// copy - for the statements inside the loop that declares it
+				if id, obj := fieldStoreRoot(v); obj != nil && x.fn != nil {
+					inside := len(stmts) > 0 && obj.Pos() >= stmts[0].Pos() && obj.Pos() <= stmts[len(stmts)-1].End()
+					if !inside && x.rangeValueOf(obj) != nil {
+						out[id.Name] = true
+					}
+				}
+				// this file's header: a, b := e1, e2 - a variable of the left side that exists already
+				if v.Tok == token.DEFINE && len(v.Lhs) > 1 && len(v.Lhs) == len(v.Rhs) {
+					for _, l := range v.Lhs {
+						if id, isId := l.(*ast.Ident); isId && id.Name != "_" && info.Defs[id] == nil {
+							out[id.Name] = true
+						}
+					}
+				}
 				for _, l := range v.Lhs {
 					if ix, isIx := l.(*ast.IndexExpr); isIx {
 						if _, ok := keyedMap(info.Types[ix.X].Type); ok {
